@@ -547,6 +547,9 @@ class Interp:
         if isinstance(f, bool):
             f = z3.BoolVal(f)
         poll_deadline()
+        sel = getattr(self.ex, "obligation_filter", None)
+        if sel is not None and not sel(name):
+            return True  # an obligation of another property's check that shares this harness
         t0 = time.time()
         s = z3.Solver()
         s.set("timeout", self.ex.query_timeout_ms)
